@@ -156,3 +156,26 @@ theorem isEmpty_iff_card {n : Nat} {g : Mask} (hg : g < 2 ^ n) : isEmpty g = tru
     · exact absurd hnil (edges_ne_nil hg h0)
 
 end Momtrop.Mask
+
+namespace Momtrop.Mask
+
+theorem testBit_foldl_or (l : List Nat) (acc i : Nat) :
+    (l.foldl (fun id e => id ||| (1 <<< e)) acc).testBit i = (acc.testBit i || decide (i ∈ l)) := by
+  induction l generalizing acc with
+  | nil => simp
+  | cons a as ih =>
+    rw [List.foldl_cons, ih, Nat.testBit_or, Nat.one_shiftLeft, Nat.testBit_two_pow]
+    by_cases h : a = i
+    · subst h; simp
+    · have : ¬ i = a := fun h' => h h'.symm
+      simp [h, this]
+
+/-- `from_edge_list` builds the id whose set bits are exactly the listed edges -/
+theorem hasEdge_ofList (l : List Nat) (e : Nat) : hasEdge (ofList l) e = decide (e ∈ l) := by
+  rw [hasEdge_iff]; unfold ofList
+  rw [testBit_foldl_or]; simp
+
+theorem mem_edges_ofList {n : Nat} {l : List Nat} {e : Nat} : e ∈ edges n (ofList l) ↔ e < n ∧ e ∈ l := by
+  rw [mem_edges, hasEdge_ofList]; simp
+
+end Momtrop.Mask
